@@ -209,6 +209,9 @@ func runC08Whole(ctx *core.Ctx) {
 type onoffArgs struct {
 	Docs []core.T  `json:"docs"`
 	Opts wholeOpts `json:"opts"`
+	// corpus only: the replay of `Neg/C08Whole.canonical_flag_converse_false` — the converse direction (off loads ⇒ on loads)
+	// is expected to FAIL on this input (a short form `Canonical` cannot parse, validation skipped)
+	ExpectOffOnly bool `json:"expect_off_only,omitempty"`
 }
 
 func onTableRow(p tree.Path) bool {
@@ -252,6 +255,14 @@ func judgeOnOff(args, real, _ json.RawMessage) *core.Verdict {
 	on, off := parseOutcome(r.On), parseOutcome(r.Off)
 	if os.Getenv("C08_DEBUG") != "" {
 		fmt.Fprintf(os.Stderr, "ONOFF\ton=%v off=%v\n", on.isOk(), off.isOk())
+	}
+	var a onoffArgs
+	json.Unmarshal(args, &a)
+	if a.ExpectOffOnly {
+		if off.isOk() && !on.isOk() {
+			return nil
+		}
+		return core.Disagree(fmt.Sprintf("the Neg witness canonical_flag_converse_false no longer reproduces on the real loader (on loads: %v, off loads: %v)", on.isOk(), off.isOk()))
 	}
 	if !on.isOk() {
 		// off may load where on fails (Canonical forgives unparsable short forms under SkipInterpolation): not this theorem
